@@ -234,7 +234,7 @@ func newLogScanner(dir LogDiffDirection, r io.Reader) *logScanner {
 		commitHeaderRegex:    regexp.MustCompile(fmt.Sprintf(`^lfs-commit-sha: (%s)(?: (%s))*`, git.ObjectIDRegex, git.ObjectIDRegex)),
 		fileHeaderRegex:      regexp.MustCompile(`^diff --git "?a\/(.+?)\s+"?b\/(.+)`),
 		fileMergeHeaderRegex: regexp.MustCompile(`^diff --cc (.+)`),
-		pointerDataRegex:     regexp.MustCompile(`^([\+\- ])(version https://git-lfs|oid sha256|size|ext-).*$`),
+		pointerDataRegex:     regexp.MustCompile(`^([\+\- ])(version https://git-lfs|version https://hawser|version http://git-media|oid sha256|size|ext-).*$`),
 	}
 }
 
